@@ -427,8 +427,14 @@ class FIXNewOrderSingle:
             #   Let's set order inactive
             self.leaves_qty = 0
 
+        if self.orig_clord_id:
+            # Request was rejected: its ClOrdID is spent, order is still live under
+            #   previous ClOrdID (this also allows subsequent order changes)
+            self.clord_id = self.orig_clord_id
+            self.orig_clord_id = None
+
         if new_status is not None:
-            self.status = new_status
+            self.status = FOrdStatus(new_status)
             return True
         else:
             return False
